@@ -206,12 +206,12 @@ OnErr(s0, e0) ==
        ELSE \* no candidate of that kind / subject
             IF F.brk \/ F.ph = "fin" THEN Flag(s1, {"C03"}, "a new report is made after the error type answered stop (or after a structural failure)")
             ELSE IF e.det.k = "missing" THEN
-                 Flag(s1, {"C08", "C04"} \cup KeepGoing(s)
+                 Flag(s1, {"C08", "C04"} \cup KeepGoing(s) \cup tagprops
                           \cup (IF IsStructLike(N) /\ F.val.t = "map" /\ \E j \in 1..Len(F.val.e) : RouteK(N, F.vi, F.fkeys, F.val.e[j].k) > 0 /\ F.fkeys[RouteK(N, F.vi, F.fkeys, F.val.e[j].k)] = e.det.field
                                  THEN {"C07"} \cup EnumProps(N) ELSE {}),      \* its effective key is there: the field was not read from it
                       "a field is reported missing although it is present, defaulted, skipped, or already reported")
             ELSE IF e.det.k = "unknownkey" THEN
-                 Flag(s1, {"C09", "C04"} \cup KeepGoing(s) \cup (IF IsStructLike(N) /\ RouteK(N, F.vi, F.fkeys, e.det.key) > 0 THEN {"C07"} \cup EnumProps(N) ELSE {}),
+                 Flag(s1, {"C09", "C04"} \cup KeepGoing(s) \cup tagprops \cup (IF IsStructLike(N) /\ RouteK(N, F.vi, F.fkeys, e.det.key) > 0 THEN {"C07"} \cup EnumProps(N) ELSE {}),
                       "a key is reported unknown although it is known, not denied, or already reported")
             ELSE IF F.ph = "bad" THEN Flag(s1, {"C04"} \cup tagprops \cup scalarprops \cup (IF N.c \in {"arr", "tup"} THEN {"C06"} ELSE {}),
                                            "the report made for a faulty value is of the wrong kind")
